@@ -502,8 +502,8 @@ Proof. intros Hnn H1 H0 H. unfold s_s_discrete_exact in H.
 (* ---- the one-period cost of the custom-pmf entry point is  E[ h (y-D)+ + p (D-y)+ ] ---- *)
 Lemma qpos_inj z : qpos (inject_Z z) == if (0 <=? z)%Z then inject_Z z else 0.
 Proof. destruct (Z.leb_spec 0 z) as [H|H].
-  - rewrite Zle_Qle in H. change (inject_Z 0) with 0 in H. qcases; lra.
-  - rewrite Zlt_Qlt in H. change (inject_Z 0) with 0 in H. qcases; lra. Qed.
+  - rewrite Zle_Qle in H. change (inject_Z 0) with 0 in H. unfold qpos. destruct (qmax_spec 0 (inject_Z z)) as [[? E]|[? E]]; rewrite E; lra.
+  - rewrite Zlt_Qlt in H. change (inject_Z 0) with 0 in H. unfold qpos. destruct (qmax_spec 0 (inject_Z z)) as [[? E]|[? E]]; rewrite E; lra. Qed.
 Lemma loss_n_def l : forall d0 y,
   loss_n l d0 y == qsum_range (fun i => nth i l 0 * qpos (inject_Z (d0 + Z.of_nat i - y))) 0 (length l).
 Proof. induction l as [|x r IH]; intros d0 y; cbn [loss_n length]; [cbn; lra|].
@@ -535,7 +535,52 @@ Theorem cost_entry h p K pmf s U q : s_s_cost_discrete h p K pmf s U = Ok q ->
   (s < U)%Z /\ ~ pf pmf 0 == 1 /\ 0 < h /\ 0 < p /\ 0 < K /\ q = gcost pmf (Gdisc h p pmf) K s U.
 Proof. unfold s_s_cost_discrete, cost_checked. destruct (guards h p K pmf) eqn:Eg; cbn [negb]; [|discriminate].
   destruct (Z.ltb_spec U s); [discriminate|]. destruct (Z.eqb_spec U s); [discriminate|].
-  unfold qeqb. destruct (Qeq_bool (pf pmf 0) 1) eqn:E; [discriminate|]. intro H. injection H as <-.
+  unfold qeqb. destruct (Qeq_bool (pf pmf 0) 1) eqn:E; [discriminate|]. intro Hq0. injection Hq0 as <-.
   destruct (guards_true _ _ _ _ Eg) as (Hh & Hp & HK). split; [lia|]. split.
   - intro Hq. apply Qeq_bool_iff in Hq. congruence.
   - auto. Qed.
+
+Theorem cost_entry_total h p K pmf s U : guards h p K pmf = true -> (s < U)%Z -> ~ pf pmf 0 == 1 ->
+  s_s_cost_discrete h p K pmf s U = Ok (gcost pmf (Gdisc h p pmf) K s U).
+Proof. intros Eg Hs H0. unfold s_s_cost_discrete, cost_checked. rewrite Eg. cbn [negb].
+  replace (U <? s)%Z with false by (symmetry; apply Z.ltb_ge; lia).
+  replace (U =? s)%Z with false by (symmetry; apply Z.eqb_neq; lia).
+  unfold qeqb. destruct (Qeq_bool (pf pmf 0) 1) eqn:E; [|reflexivity]. apply Qeq_bool_iff in E. contradiction. Qed.
+
+Theorem cost_entry_stationary h p K pmf s U q :
+  (forall l, 0 <= pf pmf l) -> qsum pmf == 1 -> pf pmf 0 < 1 ->
+  s_s_cost_discrete h p K pmf s U = Ok q -> let n := Z.to_nat (U - s) in
+  q == qsum_range (fun i => pi_ pmf n i * (Gdisc h p pmf (U - Z.of_nat i) + K * tailp pmf (n - i))) 0 n.
+Proof. intros Hnn H1 H0 H. destruct (cost_entry _ _ _ _ _ _ _ H) as (Hs & _ & _ & _ & _ & ->).
+  exact (cost_is_stationary_cost pmf (Gdisc h p pmf) K H0 Hnn H1 s U Hs). Qed.
+
+(* what the search guarantees for an arbitrary one-period cost G and starting point y* (covers the Poisson entry point) *)
+Theorem zf_generic pmf G K fuel ystar s U g :
+  (forall l, 0 <= pf pmf l) -> pf pmf 0 < 1 -> 0 < K ->
+  zf_from pmf G K fuel ystar = Ok (s, U, g) ->
+  let c := gcost pmf G K in
+  (s < U)%Z /\ (ystar <= U)%Z /\ g = c s U /\ c s U <= G s /\ G (s + 1)%Z < c s U /\
+  c s U <= c (s - 1)%Z U /\ ((s + 1 < U)%Z -> c s U <= c (s + 1)%Z U) /\
+  (exists Uend, (U < Uend)%Z /\ g < G Uend /\ forall t, (U < t < Uend)%Z -> G t <= g /\ g <= c s t) /\
+  (exists s0, (s0 < ystar)%Z /\ g <= c s0 ystar) /\
+  ((forall y, (y < ystar)%Z -> G (y + 1)%Z <= G y) -> (forall y, (ystar <= y)%Z -> G y <= G (y + 1)%Z) ->
+   (s < ystar)%Z /\ forall s', (s' < U)%Z -> c s U <= c s' U).
+Proof. intros Hnn H0 HK H. cbv zeta.
+  destruct (zf_from_spec pmf G K H0 Hnn HK _ _ _ H) as [P (s0 & S1 & S2)].
+  unfold zf_post in P. destruct P as (P1 & P2 & P3 & P4 & P5 & P6).
+  split; [exact P1|]. split; [exact P2|]. split; [exact P3|]. split; [exact P4|]. split; [exact P5|].
+  split; [apply (cs_down pmf G K H0 Hnn s U P1 P4)|]. split; [intro Hs; apply (cs_up pmf G K H0 Hnn s U Hs P5)|].
+  split; [exact P6|]. split; [exists s0; split; [exact S1|exact S2]|].
+  intros Gd Gi. exact (best_s_for_S pmf G K H0 Hnn HK ystar Gd Gi s U P1 P4 P5). Qed.
+
+(* ---- packaged forms used by Props/C13.v ---- *)
+Theorem chain_stochastic pmf : (forall l, 0 <= pf pmf l) -> qsum pmf == 1 -> forall n i, (i < n)%nat ->
+  (forall j, 0 <= trans pmf n i j) /\ qsum_range (trans pmf n i) 0 n == 1.
+Proof. intros Hnn H1 n i Hi. split; [intro j; exact (trans_nonneg pmf Hnn n i j) | exact (trans_row_sum pmf H1 n i Hi)]. Qed.
+Theorem stationary_is_distribution pmf : (forall l, 0 <= pf pmf l) -> pf pmf 0 < 1 -> forall n, (1 <= n)%nat ->
+  (forall i, 0 <= pi_ pmf n i) /\ qsum_range (pi_ pmf n) 0 n == 1.
+Proof. intros Hnn H0 n Hn. split; [intro i; exact (pi_nonneg pmf H0 Hnn n i Hn) | exact (pi_sum1 pmf H0 Hnn n Hn)]. Qed.
+Theorem zf_returns_its_cost pmf G K fuel ystar s U g :
+  (forall l, 0 <= pf pmf l) -> pf pmf 0 < 1 -> 0 < K ->
+  zf_from pmf G K fuel ystar = Ok (s, U, g) -> (s < U)%Z /\ g = gcost pmf G K s U.
+Proof. intros Hnn H0 HK H. destruct (zf_generic pmf G K fuel ystar s U g Hnn H0 HK H) as (A & _ & B & _). split; assumption. Qed.
